@@ -4,7 +4,7 @@
 
  A hierarchy shape (chain, chain with a class that skips the declaration,
  diamond in both base orders) and, per class, either no declaration or a
- declaration [ty, default, bounds, doc, constant, an, inst] in which every
+ declaration [ty, default, bounds, incl, doc, constant, an, inst, meta, nmeta] in which every
  attribute is a value or "U" (left unspecified).  The module computes
 
    * Res(c, slot): the merged value of every attribute of the Parameter of
@@ -42,13 +42,17 @@ Mro(sh, c) ==
 \* ---- Parameter types ----------------------------------------------------------------
 SubType(a, b) ==    \* issubclass(a, b)
   a = b \/ b = "Parameter" \/ (a = "Integer" /\ b = "Number")
-HasSlot(ty, slot) == slot \notin {"bounds", "incl"} \/ ty \in {"Number", "Integer"}
+HasSlot(ty, slot) == slot \notin {"bounds", "incl", "nmeta"} \/ ty \in {"Number", "Integer"}
 TypeDefault(ty, slot) ==
   CASE slot = "default" -> (CASE ty = "Parameter" -> "None" [] ty = "Number" -> "0.0" [] ty = "Integer" -> "0" [] ty = "String" -> "")
     [] slot = "bounds" -> "None"
     [] slot = "incl" -> "ii"
     [] slot = "doc" -> "None"
     [] slot = "constant" -> "F"
+    \* "meta": every other attribute all Parameter types have (label, precedence, pickle_default_value, allow_refs,
+    \* nested_refs, per_instance), specified together as a bundle m1 / m2; "nmeta": those only numeric types
+    \* have (step, softbounds), bundle n1.  "None" stands for each attribute's own type default.
+    [] slot \in {"meta", "nmeta"} -> "None"
 Num2(v) == CASE v = "0" -> 0 [] v = "0.0" -> 0 [] v = "1" -> 2 [] v = "5" -> 10 [] v = "1.5" -> 3
 IsNumTok(v) == v \in {"0", "0.0", "1", "5", "1.5"}
 \* incl: "ii" both bounds inclusive (the default), "xx" both exclusive
@@ -155,7 +159,8 @@ Expect(c) ==
   ELSE IF Fails(c) THEN [declares |-> TRUE, exists |-> TRUE, fails |-> TRUE]
   ELSE [declares |-> TRUE, exists |-> TRUE, fails |-> FALSE, ty |-> decl[c].ty,
         default |-> Res(c, "default"), bounds |-> Bounds(c), incl |-> Incl(c), doc |-> Res(c, "doc"),
-        constant |-> Res(c, "constant"), an |-> Res(c, "an"), inst |-> Res(c, "inst")]
+        constant |-> Res(c, "constant"), an |-> Res(c, "an"), inst |-> Res(c, "inst"),
+        meta |-> Res(c, "meta"), nmeta |-> IF HasSlot(decl[c].ty, "nmeta") THEN Res(c, "nmeta") ELSE "None"]
 
 Emit == RecordHist =>
   PrintT(<<"BEHAVIOUR", ToJson([shape |-> shape, decl |-> decl,
